@@ -253,6 +253,18 @@ pub fn scenario_follow(replica_only: bool, cache: usize, state: &str, tname: &st
     }
 }
 
+/// The same with `cleanup_server_connections = false`: the operator gave up RESET / DEALLOCATE at check-in,
+/// not the rule that a connection left in a transaction, in COPY or with unread data is never handed on.
+#[allow(clippy::too_many_arguments)]
+pub fn scenario_no_cleanup(cache: usize, state: &str, tname: &str, mname: &str, bytes: &[u8], follow: &str) -> Scenario {
+    let mut sc = scenario_follow(false, cache, state, tname, mname, bytes, false, follow);
+    sc.toml = sc.toml.replacen("prepared_statements_cache_size", "cleanup_server_connections = false\nprepared_statements_cache_size", 1);
+    assert!(sc.toml.contains("cleanup_server_connections = false"));
+    sc.name = format!("{} cleanup=off", sc.name);
+    sc.meta["cleanup_off"] = serde_json::json!(true);
+    sc
+}
+
 pub fn oracle(sc: &Scenario, out: &Outcome) -> Vec<Violation> {
     let log = &out.log;
     let mut vs = Vec::new();
@@ -262,6 +274,8 @@ pub fn oracle(sc: &Scenario, out: &Outcome) -> Vec<Violation> {
     let mclass = scrub(mname);
     let follow = sc.meta["follow"].as_str().unwrap_or("none");
     let ctx = if follow == "none" { format!("state={}:msg={}:mut={}", state, tname, mclass) } else { format!("state={}:msg={}:mut={}:follow={}", state, tname, mclass, follow) };
+    let cleanup_off = sc.meta.get("cleanup_off").is_some();
+    let ctx = if cleanup_off { format!("{}:cleanup=off", ctx) } else { ctx };
     // the pooler and every other task stay alive
     for p in has_panic(log) {
         if !p.contains("actor=0 ") {
@@ -326,7 +340,11 @@ pub fn oracle(sc: &Scenario, out: &Outcome) -> Vec<Violation> {
                 if last == Some(0) && t.c == 1 {
                     // with statement caching on, the pooler's own PGCAT_n statements stay on the connection by design
                     let caching = sc.name.split_whitespace().find_map(|w| w.strip_prefix("cache=")).map(|c| c != "0").unwrap_or(false);
-                    let r = dirty_reasons(st, caching);
+                    let mut r = dirty_reasons(st, caching);
+                    if cleanup_off {
+                        // session state the operator chose not to reset
+                        r.retain(|x| !(x.starts_with("guc:") || x == "role" || x == "named-statement" || x == "sql-prepared"));
+                    }
                     if !r.is_empty() {
                         vs.push(v("C11.dirty-handover", format!("C11.dirty-handover:{}:{}", r.join("+"), ctx), format!("canary got conn {} at seq {} in state {:?}", conn, seq, r)));
                     }
@@ -399,6 +417,22 @@ pub fn build(tier: &str) -> SimCheck {
             }
         }
     }
+    // cleanup_server_connections = false, for the states in which the attacker holds a server
+    for state in ["in-transaction", "mid-batch", "copy-in", "copy-in-data"] {
+        for (tname, bytes, typed) in templates() {
+            for (mname, mb) in mutations(tname, &bytes, typed, thorough) {
+                if !(thorough || mname == "wellformed" || mname.starts_with("len") || mname.starts_with("type") || mname.starts_with("trunc5") || mname == "no-nuls") {
+                    continue;
+                }
+                for cache in [0usize, 8] {
+                    if cache == 8 && !["B", "D", "P", "C"].contains(&tname) {
+                        continue;
+                    }
+                    scenarios.push(scenario_no_cleanup(cache, state, tname, &mname, &mb, "none"));
+                }
+            }
+        }
+    }
     for (tname, bytes, typed) in templates() {
         if !["B", "D", "P"].contains(&tname) {
             continue;
@@ -415,7 +449,7 @@ pub fn build(tier: &str) -> SimCheck {
         oracle: Box::new(oracle),
         bound: if thorough { 1 } else { 0 },
         limits: Limits { max_wall_s: if thorough { 2400.0 } else { 55.0 }, ..Default::default() },
-        rule: "scenario = pool (single primary / single replica, pool_size 1) x attacker protocol state (pre-startup, awaiting password, idle, in transaction, mid extended batch, COPY IN, COPY IN with buffered CopyData, COPY IN with a statement known to the client but evicted from the server, session-mode held) x 17 message templates (incl. a Parse/Bind pair with non-UTF-8 statement and portal names) x mutations (truncation at byte offsets, 8 length-field values, NULs stripped, counts -1/32767, parameter length -1/huge, unknown type bytes, other startup codes, well-formed but out of order; every mutation of Parse/Bind/Describe/Execute/Close also followed by a Sync that flushes the batch) x attacker stays connected or leaves, or first carries on with ordinary traffic (a COPY with a 9000-byte CopyData ended by a query, an extended batch, simple queries); a canary shares the pool and runs a transaction during and after; then a pooler-state probe".into(),
+        rule: "scenario = pool (single primary / single replica, pool_size 1) x attacker protocol state (pre-startup, awaiting password, idle, in transaction, mid extended batch, COPY IN, COPY IN with buffered CopyData, COPY IN with a statement known to the client but evicted from the server, session-mode held) x 17 message templates (incl. a Parse/Bind pair with non-UTF-8 statement and portal names) x mutations (truncation at byte offsets, 8 length-field values, NULs stripped, counts -1/32767, parameter length -1/huge, unknown type bytes, other startup codes, well-formed but out of order; every mutation of Parse/Bind/Describe/Execute/Close also followed by a Sync that flushes the batch) x attacker stays connected or leaves, or first carries on with ordinary traffic (a COPY with a 9000-byte CopyData ended by a query, an extended batch, simple queries); the server-holding states also with cleanup_server_connections = false; a canary shares the pool and runs a transaction during and after; then a pooler-state probe".into(),
         assumptions: vec!["length fields capped at 1 MiB (memory exhaustion not decided)".into(), "a panic confined to the attacker's own task is a disconnect, allowed by the property".into()],
     }
 }
